@@ -34,6 +34,45 @@ PKG = "btc_hd_wallet"
 
 
 # ------------------------------------------------------------------------------- AST rewriting
+YIELD_POINTS = False      # set (before the repository is imported) by property modules that explore thread switches
+
+
+def _with_yields(stmts):
+    out = []
+    for st in stmts:
+        if not isinstance(st, (ast.FunctionDef, ast.AsyncFunctionDef, ast.ClassDef, ast.Import, ast.ImportFrom, ast.Global,
+                               ast.Nonlocal, ast.Pass)):
+            y = ast.Expr(ast.Call(func=ast.Name("__sx_yield__", ast.Load()), args=[], keywords=[]))
+            out.append(ast.copy_location(y, st))
+        out.append(st)
+    return out
+
+
+class YieldTx(ast.NodeTransformer):
+    """a possible thread switch before every statement inside function bodies (second pass, after Tx)"""
+
+    def __init__(self):
+        self.depth = 0
+
+    def _fn(self, n):
+        self.depth += 1
+        self.generic_visit(n)
+        self.depth -= 1
+        first_doc = n.body and isinstance(n.body[0], ast.Expr) and isinstance(getattr(n.body[0], "value", None), ast.Constant)
+        n.body = (n.body[:1] + _with_yields(n.body[1:])) if first_doc else _with_yields(n.body)
+        return n
+    visit_FunctionDef = _fn
+
+    def generic_visit(self, n):
+        super().generic_visit(n)
+        if self.depth and not isinstance(n, (ast.FunctionDef, ast.AsyncFunctionDef, ast.ClassDef, ast.Module)):
+            for field in ("body", "orelse", "finalbody"):
+                v = getattr(n, field, None)
+                if isinstance(v, list) and v and isinstance(v[0], ast.stmt):
+                    setattr(n, field, _with_yields(v))
+        return n
+
+
 class Tx(ast.NodeTransformer):
     def visit_Call(self, n):
         self.generic_visit(n)
@@ -873,9 +912,18 @@ def _realize(x):
 
 
 def __sx_call__(f, *a, **k):
+    if SCHED[0] is not None:
+        __sx_yield__()
     h = _INTERCEPT.get(id(f))
     if h is not None:
-        return h(*a, **k)
+        if has_sym(list(a)) or has_sym(list(k.values())):
+            return h(*a, **k)
+        try:
+            return h(*a, **k)
+        except (TypeError, ValueError, OverflowError, IndexError, KeyError) as e:
+            # no symbolic argument: the model only delegates to the real builtin, the exception is CPython's own
+            e._sx_model = True
+            raise
     fn = getattr(f, "__func__", None)
     if fn is not None:
         h = _INTERCEPT.get(id(fn))
@@ -1206,20 +1254,46 @@ def _memo(fn):
 _SNAP = []
 
 
+_SNAP_ATTRS = []      # (owner, {name: value}) for modules and classes of the repository
+
+
 def snapshot_globals(modules):
-    """remember the contents of module-level / class-level containers of the repository so that
-    every explored path starts from the state a fresh process would have"""
+    """remember module-level / class-level state of the repository -- the contents of containers and the bindings of
+    every plain attribute (e.g. a class-level 'last value' memo) -- so that every explored path starts from the state
+    a fresh process would have"""
     del _SNAP[:]
+    del _SNAP_ATTRS[:]
     seen = set()
     for m in modules:
+        _SNAP_ATTRS.append((m, {n: v for n, v in vars(m).items() if not n.startswith("__")}))
         for name, v in list(vars(m).items()):
             if name.startswith("__"):
                 continue
             _snap_obj(v, seen)
             if isinstance(v, type) and getattr(v, "__module__", None) == m.__name__:
+                _SNAP_ATTRS.append((v, {n: x for n, x in vars(v).items() if not n.startswith("__")}))
                 for an, av in list(vars(v).items()):
                     if not an.startswith("__"):
                         _snap_obj(av, seen)
+
+
+def _restore_attrs():
+    for owner, saved in _SNAP_ATTRS:
+        cur = vars(owner)
+        for n in [n for n in cur if not n.startswith("__") and n not in saved and n not in HOOKS]:
+            try:
+                delattr(owner, n)
+            except (AttributeError, TypeError):
+                pass
+        for n, v in saved.items():
+            if cur.get(n, _MISSING) is not v:
+                try:
+                    setattr(owner, n, v)
+                except (AttributeError, TypeError):
+                    pass
+
+
+_MISSING = object()
 
 
 def _snap_obj(v, seen):
@@ -1232,6 +1306,7 @@ def _snap_obj(v, seen):
 def reset_path_state():
     _SIDE.clear()
     _IDS.clear()
+    _restore_attrs()
     for st in _MEMOS:
         st.clear()
     for obj, cp in _SNAP:
@@ -1422,7 +1497,62 @@ def __sx_fstr__(*parts):
     return _mkstr(out)
 
 
-HOOKS = dict(__sx_call__=__sx_call__, __sx_getitem__=__sx_getitem__, __sx_contains__=__sx_contains__,
+# ---- thread switches as a solver variable ----------------------------------------------------------
+# One pre-emption: operation A runs; at one of its yield points (before a statement / before a call of repository
+# code) the whole of operation B runs, then A continues.  WHICH point is a solver variable k: at the n-th point the
+# engine forks on (k == n).  This is the schedule "thread 1 is pre-empted at point k, thread 2 runs to completion,
+# thread 1 resumes"; the repository uses no locks and no thread-local state, so running B nested inside A's frame is
+# indistinguishable, for the shared state, from running it on another thread.
+class Sched:
+    def __init__(self, k, other):
+        self.k = k                # SxInt: the pre-emption point (0 = never inside A)
+        self.other = other        # callable: operation B
+        self.count = 0
+        self.fired = False
+        self.inside = False
+        self.result = None
+        self.error = None
+
+
+SCHED = [None]
+
+
+def __sx_yield__():
+    sch = SCHED[0]
+    if sch is None or sch.inside or sch.fired:
+        return
+    sch.count += 1
+    if core.CTX.free_choice(sch.k.e == sch.count):
+        sch.fired = True
+        sch.inside = True
+        try:
+            sch.result = sch.other()
+        finally:
+            sch.inside = False
+
+
+def _reset_sched():
+    SCHED[0] = None
+
+
+core.PATH_HOOKS.append(_reset_sched)
+
+
+def run_preempted(k, op_a, op_b):
+    """-> (result of A, result of B, number of yield points of A).  B runs at A's k-th yield point, or after A when k is 0
+    or beyond A's last point."""
+    sch = Sched(k, op_b)
+    SCHED[0] = sch
+    try:
+        ra = op_a()
+    finally:
+        SCHED[0] = None
+    if not sch.fired:
+        sch.result = op_b()
+    return ra, sch.result, sch.count
+
+
+HOOKS = dict(__sx_yield__=__sx_yield__, __sx_call__=__sx_call__, __sx_getitem__=__sx_getitem__, __sx_contains__=__sx_contains__,
              __sx_setitem__=__sx_setitem__, __sx_delitem__=__sx_delitem__,
              __sx_ifexp__=__sx_ifexp__, __sx_slice__=__sx_slice__, __sx_fstr__=__sx_fstr__)
 
@@ -1457,7 +1587,10 @@ class Finder(importlib.abc.MetaPathFinder, importlib.abc.Loader):
         self.sources[module.__name__] = (path, hashlib.sha256(src.encode()).hexdigest()[:16], src.count("\n") + 1)
         tree = ast.parse(src, path)
         if not any(s in module.__name__ for s in self.skip):
-            tree = ast.fix_missing_locations(Tx().visit(tree))
+            tree = Tx().visit(tree)
+            if YIELD_POINTS:
+                tree = YieldTx().visit(tree)
+            tree = ast.fix_missing_locations(tree)
         code = compile(tree, path, "exec")
         module.__dict__.update(HOOKS)
         exec(code, module.__dict__)
